@@ -289,16 +289,16 @@ theorem neighbour_accessors_as_modelled :
 /-- osu!: the furthest any evaluator reaches is one object ahead (`next(0, ..)` in `Speed`);
 aim, flashlight, the rhythm evaluator and the section bookkeeping only call `previous(..)`; no
 evaluator reads the length of the list or iterates it. -/
-theorem osu_lookahead_as_modelled : modeAhead "osu" = osuAhead := by decide
+theorem osu_lookahead_as_modelled : modeAhead "osu" = osuAhead := by decide +kernel
 
 /-- taiko: unbounded (colour / rhythm groups, `next_color_change`, `last_hit_object`, `run_len`). -/
-theorem taiko_lookahead_as_modelled : modeAhead "taiko" = taikoAhead := by decide
+theorem taiko_lookahead_as_modelled : modeAhead "taiko" = taikoAhead := by decide +kernel
 
 /-- catch: backwards only. -/
-theorem catch_lookahead_as_modelled : modeAhead "catch" = catchAhead := by decide
+theorem catch_lookahead_as_modelled : modeAhead "catch" = catchAhead := by decide +kernel
 
 /-- mania: backwards only. -/
-theorem mania_lookahead_as_modelled : modeAhead "mania" = maniaAhead := by decide
+theorem mania_lookahead_as_modelled : modeAhead "mania" = maniaAhead := by decide +kernel
 
 /-- **Position of `take` in every path**: whether the iterator handed to
 `create_difficulty_objects` is truncated (catch and mania one-shot, mania gradual) and whether the
@@ -329,11 +329,11 @@ theorem process_calls_pass_own_list :
 tables alone. -/
 theorem truncating_modes_look_backwards_only :
     ∀ s ∈ shapes, s.path = "oneshot" → s.takeBeforeCtor = true → modeAhead s.mode = .bounded 0 := by
-  decide
+  decide +kernel
 
 /-- …and the modes whose evaluators look ahead build the full list on both paths. -/
 theorem lookahead_modes_build_full_list :
-    ∀ s ∈ shapes, modeAhead s.mode ≠ .bounded 0 → s.takeBeforeCtor = false := by decide
+    ∀ s ∈ shapes, modeAhead s.mode ≠ .bounded 0 → s.takeBeforeCtor = false := by decide +kernel
 
 /-- **Composition, no side condition left**: for every skill that reads the list no further ahead
 than the evaluators of its mode do *according to the generated site table*, in all four modes the
